@@ -249,16 +249,20 @@ def MatWF (priv : GoPriv) (pub : GoPub) : Prop :=
 
 theorem encodeEd_np_of (c : Okp) (m : Obj) (priv : Option Bytes) (pub : Bytes)
     (h : ∀ p, priv = some p → c.len ≤ p.length) : NoPanic (encodeEd c m priv pub) := by
-  unfold encodeEd
-  simp only []
-  apply NoPanic.bind (jwk_setBytes_np _ _ _)
-  intro m'
-  split
-  · nopanic
-  · rename_i p
-    have := h p rfl
-    rw [if_neg (Nat.not_lt.mpr this)]
-    exact jwk_setBytes_np _ _ _
+  -- two shapes of the model: since d679531 the Ed encoders validate like the X encoders
+  -- (`encodeEd := encodeX`, no slice site); before, `priv[:SeedSize]` needed the length hypothesis
+  first
+    | (unfold encodeEd; exact jwk_encodeX_np c m priv pub)
+    | (unfold encodeEd
+       simp only []
+       apply NoPanic.bind (jwk_setBytes_np _ _ _)
+       intro m'
+       split
+       · nopanic
+       · rename_i p
+         have := h p rfl
+         rw [if_neg (Nat.not_lt.mpr this)]
+         exact jwk_setBytes_np _ _ _)
 
 theorem encodeECDH_np_of (m : Obj) (priv : Option Bytes) (c : EcdhCurve) (pub : Bytes)
     (h : c = .x25519 ∨ c.size + 1 ≤ pub.length) : NoPanic (encodeECDH m priv c pub) := by
@@ -416,10 +420,10 @@ theorem no_panic_jwk_reserialise_parsed (o : Oracle) (m : Obj) (k : Key)
   have hw := (parseMap_matWF m).elim hk
   exact ⟨no_panic_jwk_marshalJSON k hw, fun h => no_panic_jwk_thumbprint k h hw⟩
 
-/-- the hypothesis is needed: a hand-built Ed25519 key with a short private part makes
-    `encodeEd25519Key` slice out of range (caller-chosen value, never produced by parsing) -/
-example : PO.run (fun _ => .bytes []) (encodeEd .ed25519 [] (some [1, 2, 3]) [])
-    = .panic "jwk.encodeEdKey.seed-slice" := by rfl
+/-- the hypothesis is needed: a hand-built crypto/ecdh P-256 key whose public bytes are short makes
+    `encodeECDHKey` slice out of range (caller-chosen value, never produced by parsing) -/
+example : PO.run (fun _ => .bytes []) (encodeECDH [] none .p256 [4, 1, 2])
+    = .panic "jwk.encodeECDHKey.slice" := by rfl
 
 /-! ### COSE keys -/
 
